@@ -10,7 +10,7 @@ HERE = os.path.dirname(os.path.dirname(os.path.abspath(__file__)))
 # id -> (technique, level text, level note, design ref)
 P = {
  "C01": ("writer/reader table agreement, bit-slice inversion, interval fit of length classes, abstract execution of the packed-string reader per (kind, header byte), call binding, equality-shape (ast)",
-         "Structural clauses of the codec round trip decided on the source for all inputs: every integer writer/reader pair is a bit-exact inverse, each size-class branch implies the value fits the length form it writes, every control byte the encoder emits is dispatched by the decoder with the matching length reader, packing tables are inverse maps, the packed-string reader abstractly executed for every kind and header byte emits exactly the symbols the writer packed (filler dropped iff flagged), every intra-codec call binds, and tree equality compares every component. Value-level byte-exact round trip of arbitrary strings is not decided.",
+         "Structural clauses of the codec round trip decided on the source for all inputs: every integer writer/reader pair is a bit-exact inverse, each size-class branch implies the value fits the length form it writes, every control byte the encoder emits is dispatched by the decoder with the matching length reader, packing tables are inverse maps, the node list header counts exactly the items written, the packed-string reader abstractly executed for every kind and header byte emits exactly the symbols the writer packed (filler dropped iff flagged), every intra-codec call binds, and tree equality compares every component. Value-level byte-exact round trip of arbitrary strings is not decided.",
          "bytearray/list semantics of CPython; frame < 16 MiB (C05.guard); list size < 65536; strings Latin-1", "DESIGN.md §3 C01"),
  "C02": ("control-byte vocabulary vs independently transcribed format table, decoder alternative coverage, content type flow, dictionary vs reference copy, C01 length-class / packed-reader rules adopted as conformance clauses (ast)",
          "The control-byte table extracted from encoder and decoder equals a format table transcribed from the published binary-XML description; the decoder has a branch for every permitted alternative form; node content is bytes on every content branch; both token lists equal the committed reference copy entry by entry; every size-class branch of the encoder declares a length that fits the form it writes and the packed-string reader yields the format's alphabet for every header byte. Byte equality with a second implementation is not decided (none is available offline).",
@@ -21,29 +21,29 @@ P = {
  "C04": ("path/ordering facts in the noise glue, prologue/version constant agreement, must-call of the finish callback, per-attempt resource ownership (ast CFG)",
          "Shape of the yowsup-side glue around consonance: prologue bytes agree with the protocol version constants; segmentation is off for the prologues and on afterwards; the finish callback is reached on every path of the worker; a failed handshake emits the event and sends a failure stanza up; a changed server key is written before frames are flushed; buffered frames are drained under one lock; disconnect resets. The Noise handshake itself and chunkings are not decided.",
          "consonance calls the state callback synchronously; known finding C04.attempt recorded", "DESIGN.md §3 C04"),
- "C05": ("dataflow independence from the chunk, peel-loop shape, linear slice arithmetic (read-cursor aware), dominating size guard (ast CFG)",
-         "For every chunking: the received chunk flows only into the accumulation buffer and every decision, size and slice reads the buffer, frames are peeled in a loop whose single delivery is dominated by the completeness test, the slice arithmetic is header/payload/remainder exactly, the writer's header is the big-endian length truncated to the reader's header size and oversize payloads are refused on a path dominating both writes.",
+ "C05": ("dataflow independence from the chunk, peel-loop shape, linear slice arithmetic (read-cursor aware), dominating size guard, per-instance state (ast CFG)",
+         "For every chunking: the received chunk flows only into the accumulation buffer and every decision, size and slice reads the buffer, frames are peeled in a loop whose single delivery is dominated by the completeness test, the slice arithmetic is header/payload/remainder exactly, the writer's header is the big-endian length truncated to the reader's header size and oversize payloads are refused on a path dominating both writes, and the accumulation buffer is a fresh per-instance object.",
          "bytearray slicing and struct big-endian semantics of CPython", "DESIGN.md §3 C05"),
  "C06": ("abstract interpretation of the assembled stack (the repository's own group / dispatch / handler code) over every cell of the input space induced by the handlers' own tests x 16 module selections x with/without encryption layers",
-         "Routing counts decided per cell: every concrete entity class is forwarded by exactly one layer of the protocol group (0 for classes of left-out modules, never 2), every incoming stanza cell reaches exactly one delivery, the two encryption layers partition incoming tags, and every iq registration handles both reply kinds. Field values are C09's.",
+         "Routing counts decided per cell: every concrete entity class is forwarded by exactly one layer of the protocol group (0 for classes of left-out modules, never 2), every incoming stanza cell reaches exactly one delivery, the two encryption layers partition incoming tags, every iq registration handles both reply kinds and is made before the request goes down, and no composition the library builds or publishes holds a layer twice. Field values are C09's.",
          "reference/routing.json lists the supported kinds (reviewed table); base dispatch semantics are first established from the ASTs of YowProtocolLayer/YowParallelLayer", "DESIGN.md §3 C06, §2.1"),
  "C07": ("abstract interpretation of the assembled stack counting acknowledgement effects per cell + provenance of their fields",
-         "Exactly one ack per notification cell on every non-raising path with id/type/to/participant fed by the notification's own fields; call offers get one receipt with the call id, other call stanzas one ack; server pings get one pong with the request id; unsupported message payloads get one receipt.",
+         "Exactly one ack per notification cell on every non-raising path with id/type/to/participant fed by the notification's own fields; call offers get one receipt with the call id, other call stanzas one ack; server pings get one pong with the request id; unsupported message payloads get one receipt (a handler that raises instead counts as none); no published or built composition holds an answering layer twice.",
          "the documented exclusion (picture neither set nor delete raises) is a table entry", "DESIGN.md §3 C07"),
  "C08": ("dominance facts on the two iq registries, sibling agreement of every receive override, callback arity binding, abstract execution of bounded send/reply histories (ast CFG + class hierarchy + abstract interpretation)",
-         "Registry protocol decided on the source: the registry write dominates the send, the entry is deleted before any callback runs, result selects the success callback and error the error callback with (reply, original request), every receive in the layer hierarchy consults the registry before dispatch, every registered callback binds two positional arguments.",
+         "Registry protocol decided on the source: the registry write dominates the send, the entry is deleted before any callback runs, result selects the success callback and error the error callback with (reply, original request), every receive in the layer hierarchy consults the registry before dispatch, every registered callback binds two positional arguments, the registries are per-instance objects, and every bounded history of sends and replies delivers each reply to its own callback once.",
          "dict semantics of CPython", "DESIGN.md §3 C08"),
  "C09": ("field provenance of fromProtocolTreeNode composed with toProtocolTreeNode on a symbolic stanza per cell, per receive-side entity class; per-element container allocation in converter loops; definite-type flow into the codec; C01 codec rules adopted (ast abstract interpretation)",
-         "Field provenance: every attribute/child/data the serialiser writes is fed by the same path/key of the parsed stanza, every path/key the parser stores is written back, both converters return a value on every path, node API calls exist, containers filled per element are allocated per element, and the codec the stanzas pass through is a round trip (C01 rules). Numeric/value-level equality is not decided.",
+         "Field provenance: every attribute/child/data the serialiser writes is fed by the same path/key of the parsed stanza, every path/key the parser stores is written back, both converters return a value on every path, node API calls exist, containers filled per element are allocated per element, the codec the stanzas pass through is a round trip (C01 rules) and the payload converter of message entities is a bijection (C10 rules). Numeric/value-level equality is not decided.",
          "classes the interpreter cannot follow are reported as not analysed (coverage is reported)", "DESIGN.md §3 C09, §2.1"),
  "C10": ("bijection of the hand-written field maps, proto descriptor names extracted from the pb2 module AST, guard/field agreement and exclusivity, accessor agreement (ast)",
-         "The converter is a bijection on the modelled fields: each attribute field maps to one proto field and back to the same attribute, every proto field named exists in the descriptor of its message type, HasField guards name the field they guard, no field copy depends on another attribute being absent, entity accessors return the attribute object the constructor populated. Protobuf's own encoding is trusted.",
+         "The converter is a bijection on the modelled fields: each attribute field maps to one proto field and back to the same attribute, every proto field named exists in the descriptor of its message type, HasField guards name the field they guard, no field copy depends on another attribute being absent, no proto field is written twice, the payload entity serialises its current attributes on every path, entity accessors return the attribute object the constructor populated. Protobuf's own encoding is trusted.",
          "google.protobuf encoding trusted; descriptors read from the serialized descriptor in the generated module", "DESIGN.md §3 C10"),
  "C11": ("lock-set argument over the resolved default stack: hand-over-hand lock, who-may-call, adjacency, exactly-once forwarding (ast + call graph)",
          "For every interleaving: the lower layer's send is entered only from toLower inside the critical section of the calling layer's lock, no layer of the default stack overrides toLower, coder/noise/segments/network are adjacent in all 16 default compositions, the cipher step is reachable only through the noise layer's send, both writes of a frame happen in one locked invocation, every core layer forwards exactly once.",
          "consonance's write_segment calls back synchronously; asyncore's buffer preserves append order", "DESIGN.md §3 C11"),
  "C12": ("release-on-every-path including exceptional exits (statement CFG with exceptional edges), consume-before-deliver / no-resume facts on delivery loops, lock-order graph acyclicity over the resolved stack",
-         "Every lock acquire in the library reaches its release on every path to every exit including exceptional exits where any call may raise; delivery loops remove an element from layer state before its delivery can raise and no handler inside such a loop resumes it; the lock-order graph over the resolved default stack is acyclic and no call chain re-acquires a non-reentrant lock it holds.",
+         "Every lock acquire in the library reaches its release on every path to every exit including exceptional exits where any call may raise; delivery loops remove an element from layer state before its delivery can raise and no handler inside such a loop resumes it; events that can be raised from inside a send are detached; the lock-order graph over the resolved default stack is acyclic and no call chain re-acquires a non-reentrant lock it holds.",
          "application callbacks' own behaviour is outside; demos are out of scope", "DESIGN.md §3 C12"),
  "C13": ("SQL/commit effect sequences per store method on the CFG, schema/placeholder agreement (ast + SQL tokeniser)",
          "For every crash point: every write statement is followed by a commit on every normal path, no commit separates the delete and the insert that replace one record in one API call, columns and placeholder counts agree with the CREATE TABLE, loaders select what the writers insert keyed by the same columns, blobs are stored as bytes.",
@@ -61,7 +61,7 @@ P = {
          "isTrustedIdentity returns true for unknown recipients and otherwise an equality between the stored key of that recipient and the presented key; every overwrite of a pinned identity is control-dependent on the auto-trust switch whose default is off; without auto-trust the untrusted paths refuse (re-raise, error list, no delivery); the pin is a committed row.",
          "python-axolotl raises UntrustedIdentityException from its own check of isTrustedIdentity", "DESIGN.md §3 C17"),
  "C18": ("call binding of the builder helpers, abstract evaluation of the 16 default compositions and 32 default stacks, wiring order, mirror-sibling isomorphism, stop/defer shape, group onEvent over all member answer vectors (ast + abstract interpretation)",
-         "Every call among the builder helpers binds for all argument combinations; the 16 flag vectors evaluate to core + control + encryption group + exactly the selected modules and getDefaultStack builds exactly those layers for each of its 32 argument combinations; the parallel group reports an event as consumed iff a consulted member consumed it; _construct wires upper/lower in order; emit/broadcast and the parallel siblings are mirror images; continuation is guarded by the negated onEvent result and detached events are deferred once. Arbitrary user-built stacks are not decided.",
+         "Every call among the builder helpers binds for all argument combinations; the 16 flag vectors evaluate to core + control + encryption group + exactly the selected modules and getDefaultStack builds exactly those layers for each of its 32 argument combinations; the parallel group reports an event as consumed iff a consulted member consumed it; event-callback tables are fresh per-instance objects; no helper extends a module-level list in place; _construct wires upper/lower in order; emit/broadcast and the parallel siblings are mirror images; continuation is guarded by the negated onEvent result and detached events are deferred once. Arbitrary user-built stacks are not decided.",
          "inspect/thread semantics of CPython", "DESIGN.md §3 C18"),
  "C19": ("transform-table agreement, constructor/attribute identity map, trial-parse detection strictness, atomic-save idiom incl. rename-after-close, directory-ensured path algebra, file modes (ast CFG)",
          "Forward and reverse transform maps agree and are applied in mirrored order, every serialised Config attribute is a constructor parameter mapped to its own attribute, extension and type maps cover both formats, a format tried earlier by the auto-detection rejects the documents of formats tried later, the save path writes a temporary file and renames it over the target after closing it, and the directory of the file being created is ensured. JSON/key=value value round trip is not decided.",
